@@ -11,6 +11,13 @@ open Afkak.Partitioner Afkak.Murmur
 def hashOk (key : List UInt8) (ps : List Int) (result : Int) : Bool :=
   ps.length != 0 && ps[javaIndex key ps.length]? == some result
 
+/-- The same for a key in the form the caller passed (text or bytes): the choice is the Java
+    client's choice for the key's UTF-8 bytes, computed by the model's own encoder. -/
+def hashKeyOk (k : Key) (ps : List Int) (result : Int) : Bool :=
+  match keyBytes k with
+  | none => false
+  | some b => hashOk b ps result
+
 /-- What C18 demands of a window of `k·n` consecutive round-robin selections made with an unchanged
     ascending list `ps` of `n` partitions: each partition is chosen exactly `k` times (`k·count`
     if the caller's list repeats an id). -/
